@@ -50,6 +50,11 @@ CHECKS = {
     technique='TLA+/TLC: position-by-position validation of the sequences yielded by the real traversal generators against the abstract order specification Traverse.tla; lookup results against Locs.tla',
     text='For seeded random circuits (both styles, unconnected pins, isolated nodes, flip-flops and latches as cut points) TLC validates every position of the sequences yielded by topological_order, topological_order_with_level, topological_line_order, reversed_topological_order and fanin(random origin sets): each node/line exactly once and all of them, drivers before readers, sources first, level = 1 + max level of the connected drivers, mirrored order valid for the reversed graph, fan-in sound (only nodes with a path) and complete (every node with a combinational path). Any valid order is accepted. io_locs/s_locs are compared with the TLA+ bus-nesting function on structurally generated names (6 index styles, gaps, two dimensions, prefix collisions).',
     note='Circuits acyclic after the cut, single-driver forks. Non-origin state elements feeding the cone may or may not be yielded. Prefixes are plain identifiers. Trusted: TLC, JSON reader, harness projection and name rendering.'),
+ 'C03': dict(
+    cat='model_checking', ref='DESIGN.md §4 C03, §3 (WaveProps, WaveEval, KernelT, WaveEvalTrace, WaveSimT)',
+    technique='TLA+/TLC: exhaustive design run of the merge-kernel model WaveEval.tla; batched trace validation of the real kernel on the complete configuration domain (KernelT.tla) and of WaveSim/WaveSimCuda on random circuits (WaveSimT.tla); kernel conformance with the model',
+    text='The kernel model (one step per loop iteration, identical case split incl. pulse filtering and overflow) satisfies Functional/WithinCap for every configuration of its bounds. The REAL wave_eval_cpu is run on that complete domain (17 424 configurations; thorough adds the 247 808 polarity-dependent ones) and on seeded random configurations (all 33 tables, 1..4 inputs, non-monotone inputs, capacities 4/8/16); TLC checks on its outputs that the waveform starts at the function of the initial values and ends by parity at the function of the final values, also after overflow, inside its capacity. At circuit level every line waveform and the captured initial/final values of WaveSim and WaveSimCuda (random circuits incl. parity-heavy ones, grid and off-grid delays, uniform and per-line capacities, multi-transition inputs, c_reuse/strip_forks variants) are validated against Netlist.Eval of the inputs\' initial/final values.',
+    note='Non-negative finite delays; capacities positive multiples of 4; input waveforms of at most 3 entries; GPU path = kernels through MockCuda. Interface-cut convention. Trusted: TLC, JSON reader, harness projection and time encoding.'),
  'C07': dict(
     cat='model_checking', ref='DESIGN.md §4 C07, §3 (Schedule, ThreadOrder, SchedReplay)',
     technique='TLA+/TLC: model run of Schedule.tla on the published schedule (all Begin/End interleavings for narrow levels, level-wise static form for all); TLC-simulated thread orders (ThreadOrder.tla) replayed into the real simulators, judged by SchedReplay.tla',
